@@ -16,7 +16,24 @@ def main():
     from harness import common
     if a.replay:
         sys.exit(common.replay_file(mod.CHECK, a.replay))
-    sys.exit(mod.CHECK(a.tier, seed).run())
+    try:
+        rc = mod.CHECK(a.tier, seed).run()
+    except BaseException as e:  # noqa - the machinery itself failed: the property is not shown to hold
+        if isinstance(e, (KeyboardInterrupt, SystemExit)):
+            raise
+        import json
+        import traceback
+        tb = traceback.format_exc()
+        common.REPLAYS.mkdir(exist_ok=True)
+        rp = common.REPLAYS / f"{a.pid}_harness_failure.json"
+        rp.write_text(json.dumps({"property": a.pid, "no_failing_input_found": True,
+                                  "what": ["the check could not run to completion on this tree (the implementation did "
+                                           "something the harness could not drive or express); nothing is shown to hold"],
+                                  "traceback": tb[-4000:]}, indent=1))
+        print(tb[-3000:])
+        print(f"VIOLATION property={a.pid} replay={rp.relative_to(common.VERIF)} no-failing-input-found")
+        rc = 1
+    sys.exit(rc)
 
 
 if __name__ == "__main__":
